@@ -86,6 +86,10 @@ def entry_points(prog):
         if fi.cls in GA_CLASSES:
             if fi.name in IN_PLACE or any(d.endswith(".setter") for d in fi.decorators):
                 continue
+            if fi.name.startswith("_") and not fi.name.startswith("__"):
+                # a private helper method is judged through the public methods that call it (its effects are part of their summaries): as the
+                # body of an in-place mutator it may write to self, reached from any other method that write is reported there
+                continue
             out.append(fi)
         elif fi.cls is None:
             if qn in EXPLICIT_ENTRIES:
@@ -283,43 +287,32 @@ def d3_fanout(chk, prog, eff):
         raise AnalysisError(f"C10-D3: SerialPool.map cannot be interpreted: {e}")
     chk.decide(ok, "ordered-fanout", "SerialPool.map(func, items): func applied once per item, results in item order", "cnvlib.parallel.SerialPool.map", sp.loc(),
                f"the serial pool must apply func to every item in order; got {res} (applied to {applied})")
+    # pick_pool, interpreted: the serial pool for one process, an executor with that many workers otherwise (all cores for a count below 1)
     pp = prog.fn("cnvlib.parallel.pick_pool")
-    yields = [n for n in own_nodes(pp.node) if isinstance(n, ast.Yield)]
-    kinds = sorted({norm(y.value) for y in yields})
-    ok = len(yields) == 2 and any("SerialPool()" == k for k in kinds) and any(k == "pool" for k in kinds)
-    chk.decide(ok, "ordered-fanout", "pick_pool yields SerialPool for 1 process, ProcessPoolExecutor otherwise",
-               "cnvlib.parallel.pick_pool", pp.loc(), f"yields {kinds}")
-    # sibling agreement: serial and parallel branch of one step reach the same worker
-    for qn, workers in (("cnvlib.coverage.interval_coverages_count", ("_rdc", "_rdc_chunk", "region_depth_count")),
-                        ("cnvlib.coverage.interval_coverages_pileup", ("_bedcov", "bedcov"))):
-        fi = prog.fn(qn)
-        def has_map(stmts):
-            return any(isinstance(m, ast.Call) and isinstance(m.func, ast.Attribute) and m.func.attr == "map"
-                       and "pool" in norm(m.func.value).lower() for b in stmts for m in ast.walk(b))
-        ifs = [n for n in own_nodes(fi.node) if isinstance(n, ast.If) and n.orelse and has_map(n.body) != has_map(n.orelse)]
-        if not ifs:
-            raise AnalysisError(f"{qn}: serial/parallel branch vanished")
-        node = ifs[0]
+    from ..abstools import Model, Table, Row
+    tbp = Table(chk, "ordered-fanout", "pick_pool(n) for n = 1, 2, 7, 0, -1: what the `with` block receives", pp.loc(), pp.qn)
+    for n_ in (1, 2, 7, 0, -1):
+        made = []
+        model = Model()
 
-        def leaf_calls(stmts):
-            out = set()
-            for s in stmts:
-                for m in ast.walk(s):
-                    if isinstance(m, ast.Call):
-                        for c in eff.resolve_call(m, fi):
-                            out |= _closure(prog, eff, c, 3)
-                        if isinstance(m.func, ast.Attribute) and m.func.attr == "map" and m.args and isinstance(m.args[0], ast.Name):
-                            r = prog.resolve_name(fi.mod, m.args[0].id)
-                            if r and r[0] == "func":
-                                out |= _closure(prog, eff, r[1], 3)
-            return out
-        par_leaves, ser_leaves = leaf_calls(node.body), leaf_calls(node.orelse)
-        if not has_map(node.body):
-            par_leaves, ser_leaves = ser_leaves, par_leaves
-        leaf = workers[-1]
-        ok = any(q.endswith("." + leaf) for q in par_leaves) and any(q.endswith("." + leaf) for q in ser_leaves)
-        chk.decide(ok, "ordered-fanout", f"{qn}: serial and parallel branch both reach {leaf}", f"{qn}::branches", fi.loc(node),
-                   f"parallel reaches {sorted(q.split('.')[-1] for q in par_leaves)}, serial reaches {sorted(q.split('.')[-1] for q in ser_leaves)}")
+        def executor(it_, *a, made=made, **k):
+            made.append(k.get("max_workers", a[0] if a else None))
+            return Row({"__executor__": True, "__enter__": None})
+        model.ext["concurrent.futures.ProcessPoolExecutor"] = executor
+        it_ = Interp(prog, model)
+        try:
+            got = list(it_.iterate(it_.call_function(pp.mod, pp.node, [n_], {}, qn=pp.qn)))
+        except (Undecided, Raised) as e:
+            tbp.undecided.append(f"pick_pool({n_}): {e}")
+            continue
+        if n_ == 1:
+            ok = len(got) == 1 and not made and isinstance(got[0], Row) and "SerialPool" in str(got[0]._d.get("__class__", ""))
+        else:
+            ok = len(got) == 1 and made == [n_ if n_ >= 1 else None] and isinstance(got[0], Row) and got[0]._d.get("__executor__") is True
+        tbp.cell(ok, dict(nprocs=n_, yielded=repr(got)[:80], executors_created_with=made))
+    tbp.done("pick_pool does not hand out the serial pool for one process and a process pool of the requested size otherwise")
+    # (sibling agreement -- with 1 and with 3 processes the read-count and pileup paths reach the same worker with the same arguments and give the same rows
+    #  in the same order -- is decided by interpretation: C09-D5b / D5c, run from run() below; the former comparison of the two branches' call sets is retired)
 
 
 def _closure(prog, eff, fi, depth):
